@@ -15,9 +15,10 @@ theorem byte_eq (a : UInt8) (k : Nat) (hk : k < 256) : (((a.toNat : Int) == (k :
     simp [this, Nat.mod_eq_of_lt hk]
   · intro h; subst h; simp [Nat.mod_eq_of_lt hk]
 
-/-- `isNull` of json.go = the model's `isNull` -/
-theorem isNull_matches (v : List UInt8) : Funcs.isNull v = Wire.isNull v := by
-  unfold Funcs.isNull Wire.isNull
+/-- the length test and four byte tests, as json.go has written `isNull` -/
+theorem isNull_by_bytes (v : List UInt8) :
+    ((((((GoLen.len v) == 4) && ((GoIdx.idx v 0) == 110)) && ((GoIdx.idx v 1) == 117)) && ((GoIdx.idx v 2) == 108)) && ((GoIdx.idx v 3) == 108)) = Wire.isNull v := by
+  unfold Wire.isNull
   rcases v with _ | ⟨a, _ | ⟨b, _ | ⟨c, _ | ⟨d, _ | ⟨e, r⟩⟩⟩⟩⟩
   · simp [GoLen.len]
   · simp [GoLen.len]
@@ -32,6 +33,13 @@ theorem isNull_matches (v : List UInt8) : Funcs.isNull v = Wire.isNull v := by
     by_cases h1 : a = 110 <;> by_cases h2 : b = 117 <;> by_cases h3 : c = 108 <;> by_cases h4 : d = 108 <;>
       simp_all
   · simp [GoLen.len]; omega
+
+/-- `isNull` of json.go = the model's `isNull` - whether it is written as those byte tests or as
+a comparison with the text `null` -/
+theorem isNull_matches (v : List UInt8) : Funcs.isNull v = Wire.isNull v := by
+  first
+  | exact isNull_by_bytes v
+  | (unfold Funcs.isNull Wire.isNull; apply Bool.eq_iff_iff.mpr; simp; done)
 
 /-- `fixID` of json.go = the model's -/
 theorem fixID_matches (v : List UInt8) : Funcs.fixID v = Wire.fixID v := by
